@@ -42,9 +42,13 @@ def _tensors(args, kwargs):
 
 
 def _full_state(m):
+    import torch
+
     d = {k: v for k, v in m.state_dict().items()}
     for k, v in m.named_buffers():
         d.setdefault(k, v)
+    for k, mod in m.named_modules():
+        d[(k + "." if k else "") + "__training__"] = torch.tensor(float(mod.training))
     return d
 
 
